@@ -44,6 +44,11 @@ type Other struct{}
 
 func (Other) Key() string { return "oth" }
 
+// Sym is an opaque symbolic value with identity (equal only to itself).
+type Sym struct{ Name string }
+
+func (s Sym) Key() string { return "sym:" + s.Name }
+
 // Ptr is the address of (a sub-object of) an abstract object.
 type Ptr struct {
 	Obj  string
